@@ -201,6 +201,8 @@ class Interp:
         env = Env(info.module, closure, info)
         env.self_cls = self_cls or info.cls
         env.vars.update(args)
+        if self.call_stack:
+            env.caller_owned = {k for k, v in args.items() if isinstance(v, (DictV, ListV, SetV))}
         gen = self._is_generator(info.node)
         if gen:
             # generator function: the values it yields, in order, as a list (sound for consumers that iterate it once)
@@ -390,6 +392,7 @@ class Interp:
         if isinstance(target, ast.Name):
             # python scoping: assignment binds in the current activation
             env.vars[target.id] = v
+            env.caller_owned.discard(target.id)
         elif isinstance(target, (ast.Tuple, ast.List)):
             parts = self.unpack(v, len(target.elts), st)
             for t, pv in zip(target.elts, parts):
@@ -414,6 +417,10 @@ class Interp:
             e = env
             while e is not None:
                 if target_expr.id in e.vars:
+                    if target_expr.id in e.caller_owned:
+                        # the container is the caller's object: abstract containers are values, so the caller will not see this change
+                        e.caller_owned.discard(target_expr.id)
+                        self.event("lost_mutation", st, what=f"`{target_expr.id}` is a container received as an argument and changed in place: the caller's view of it is not updated")
                     e.vars[target_expr.id] = new
                     return
                 e = e.parent
